@@ -4,6 +4,9 @@
   BaseRule.discard_unsafe_fixes is recorded (fixes before, templated file, fixes after) and judged with the SAME spec
   functions the pyvc contracts use (contracts/c10_fix.py), plus the clauses about the block-index loop, which pyvc does
   not carry (iteration over a set, len of a set).
+  Fixes that straddle a template comment / mid-block tag and survive the first line are an OBSERVATION (weaker defence
+  in depth), not a failure; what IS C10 for exactly those inputs -- the tag / comment text is byte-identical and in order
+  after lint_string(fix=True).fix_string() -- is a clause of this check.
 * discard_on_built_results: the real discard_unsafe_fixes on small built results (bounded random).
 * wiring (EXTRA, syntactic over the real AST): fixes reach the linter only through _process_lint_result, which calls
   discard_unsafe_fixes first unless the rule declares template_safe_fixes.
@@ -17,6 +20,7 @@ from . import c10_fix as F
 
 TAGS = ("block_start", "block_end")
 OTHER = ("block_mid", "comment")
+OBSERVATION = "first-line filter does not treat template comments / mid-block tags as conflicts; the last gate (generate_source_patches) skips the patch, so template code is unchanged; upstream logs 'Please report'"
 
 
 def straddled_types(fix, tf):
@@ -43,8 +47,13 @@ def judge(before, tf, after):
     out["conflict-drops-all"] = (after == []) if conflict else None
     out["all-or-nothing"] = (after == [] or (len(after) == len(before) and all(x is y for x, y in zip(after, before))))
     out["block-tag-straddle-drops-all"] = (after == []) if st & set(TAGS) else None
-    out["comment-or-mid-tag-straddle-drops-all"] = (after == []) if st & set(OTHER) else None
     return out
+
+
+def survives_straddling(before, tf, after):
+    """OBSERVATION (not a clause): a fix whose anchor straddles a template comment / mid-block tag survived the first line"""
+    st = set().union(*[straddled_types(f, tf) for f in before]) if before else set()
+    return bool(st & set(OTHER)) and after != []
 
 
 CASES = [
@@ -94,11 +103,18 @@ def first_line_on_real_fixes(tier, seed):
         orig.__func__(lint_result, templated_file)
         if templated_file is not None and before:
             rec.append((before, templated_file, list(lint_result.fixes)))
+    import re
+    tag = re.compile(r"\{\{.*?\}\}|\{%.*?%\}|\{#.*?#\}", re.S)
     cases = CASES + (MORE if tier == "thorough" else [])
-    names = ["requires", "conflict-drops-all", "all-or-nothing", "block-tag-straddle-drops-all",
-             "comment-or-mid-tag-straddle-drops-all"]
+    names = ["requires", "conflict-drops-all", "all-or-nothing", "block-tag-straddle-drops-all", "straddled-template-code-unchanged"]
     counts = {n: 0 for n in names}
-    failed, samples, ev = {}, [], 0
+    failed, samples, observations, ev = {}, [], [], 0
+
+    def fail(n, detail):
+        if n not in failed:
+            failed[n] = {"name": f"C10/first-line/discard_unsafe_fixes/{n}", "id": f"C10/first-line/discard_unsafe_fixes/{n}",
+                         "kind": "bounded", "status": "failed", "function": "sqlfluff.core.rules.base:BaseRule.discard_unsafe_fixes",
+                         "detail": detail, "reproduced": True}
     BaseRule.discard_unsafe_fixes = staticmethod(recording)
     try:
         lnt = Linter(config=FluffConfig(overrides={"dialect": "ansi"}))
@@ -110,33 +126,44 @@ def first_line_on_real_fixes(tier, seed):
             except Exception as e:     # a crash of the linter is another property's business
                 samples.append({"source": sql, "linter_raised": repr(e)})
                 continue
+            straddled = set()
             for before, tf, after in rec:
                 ev += 1
+                straddled |= set().union(*[straddled_types(f, tf) for f in before])
                 verdict = judge(before, tf, after)
                 for n, ok in verdict.items():
                     if ok is None:
                         continue
                     counts[n] += 1
-                    if not ok and n not in failed:
-                        failed[n] = {"name": f"C10/first-line/discard_unsafe_fixes/{n}", "id": f"C10/first-line/discard_unsafe_fixes/{n}",
-                                     "kind": "bounded", "status": "failed",
-                                     "function": "sqlfluff.core.rules.base:BaseRule.discard_unsafe_fixes",
-                                     "detail": {"source": sql, "fixes_offered": [repr(f) for f in before],
-                                                "fixes_after_discard": [repr(f) for f in after],
-                                                "raw_slices": [(r.slice_type, r.source_idx, r.raw) for r in tf.raw_sliced],
-                                                "straddled": sorted(set().union(*[straddled_types(f, tf) for f in before])),
-                                                "fixed_string_end_to_end": fixed,
-                                                "note": "the patch filter (generate_source_patches, proved in c10.py) is what "
-                                                        "keeps the template code intact here; the fix stays `fixable` but is skipped"},
-                                     "reproduced": True}
+                    if not ok:
+                        fail(n, {"source": sql, "fixes_offered": [repr(f) for f in before],
+                                 "fixes_after_discard": [repr(f) for f in after],
+                                 "raw_slices": [(r.slice_type, r.source_idx, r.raw) for r in tf.raw_sliced]})
+                if survives_straddling(before, tf, after) and len(observations) < 4:
+                    observations.append({"observation": OBSERVATION, "source": sql,
+                                         "fix_kept_by_discard_unsafe_fixes": [repr(f) for f in after][:2],
+                                         "straddled": sorted(set().union(*[straddled_types(f, tf) for f in before])),
+                                         "fixed_string_end_to_end": fixed,
+                                         "template_code_unchanged": fixed is not None and tag.findall(fixed) == tag.findall(sql)})
                 if len(samples) < 3 and verdict.get("conflict-drops-all"):
                     samples.append({"source": sql, "dropped": [repr(f) for f in before][:2]})
+            # THE PROPERTY for exactly these inputs: some offered fix straddles a template comment / mid-block tag / block tag
+            # => every tag / expression / comment of the source is byte-identical and in order in the fixed output
+            if straddled and fixed is not None:
+                counts["straddled-template-code-unchanged"] += 1
+                if tag.findall(fixed) != tag.findall(sql):
+                    fail("straddled-template-code-unchanged",
+                         {"source": sql, "fixed": fixed, "straddled": sorted(straddled), "tags_before": tag.findall(sql),
+                          "tags_after": tag.findall(fixed),
+                          "patches": [(p.patch_category, p.source_slice.start, p.source_slice.stop, p.fixed_raw)
+                                      for p in (lf.source_patches or [])] if hasattr(lf, "source_patches") else None})
     finally:
         BaseRule.discard_unsafe_fixes = orig
     nontrivial = sum(counts[n] for n in names[1:] if n != "all-or-nothing")
     return {"name": "first-line-on-real-fixes", "bound": f"{len(cases)} templated snippets, all rules, every discard_unsafe_fixes call",
-            "rule": "non-trivial = a recorded call in which a fix conflicts / straddles template code", "evaluations": ev,
-            "distinct_nontrivial": nontrivial, "clause_applications": counts, "samples": samples, "failed": list(failed.values())}
+            "rule": "non-trivial = a recorded call in which a fix conflicts / straddles template code, or a snippet with a straddling fix",
+            "evaluations": ev, "distinct_nontrivial": nontrivial, "clause_applications": counts, "samples": samples,
+            "observations": observations, "failed": list(failed.values())}
 
 
 def discard_on_built_results(tier, seed):
@@ -147,7 +174,7 @@ def discard_on_built_results(tier, seed):
     n = 20000 if tier == "thorough" else 3000
     names = ["conflict-drops-all", "all-or-nothing", "block-tag-straddle-drops-all", "untouched-without-file"]
     counts = {k: 0 for k in names}
-    failed, ev = {}, 0
+    failed, ev, observations = {}, 0, []
     for _ in range(n):
         tf = F._build_file(rng)
         fixes = [F._build_fix(rng, None, tf) for _ in range(rng.choice([1, 1, 2, 3]))]
@@ -166,7 +193,14 @@ def discard_on_built_results(tier, seed):
                 continue
             verdict = judge(fixes, tf, res.fixes)
             verdict.pop("requires", None)
-            verdict.pop("comment-or-mid-tag-straddle-drops-all", None)    # judged on real lint runs (known to fail)
+            if len(observations) < 2:
+                for f in fixes:
+                    if F.straddles_template_code(f, tf) and not f.has_template_conflicts(tf):
+                        observations.append({"observation": OBSERVATION, "has_template_conflicts": False, "fix": repr(f),
+                                             "anchor_templated_slice": repr(f.anchor.pos_marker.templated_slice),
+                                             "sliced_file": [tuple(e) for e in tf.sliced_file],
+                                             "fixes_after_discard_unsafe_fixes": len(res.fixes)})
+                        break
         ev += 1
         for k, ok in verdict.items():
             if ok is None:
@@ -181,7 +215,7 @@ def discard_on_built_results(tier, seed):
     return {"name": "discard-on-built-results", "bound": f"{n} random results of 1-3 fixes over files of <= 9 characters",
             "rule": "non-trivial = a result in which a fix conflicts or straddles a block tag", "evaluations": ev,
             "distinct_nontrivial": counts["conflict-drops-all"] + counts["block-tag-straddle-drops-all"],
-            "clause_applications": counts, "samples": [], "failed": list(failed.values())}
+            "clause_applications": counts, "samples": [], "observations": observations, "failed": list(failed.values())}
 
 
 # ------------------------------------------------------------------ EXTRA: wiring (syntactic, over the real AST)
